@@ -7,13 +7,20 @@ Tie (every run):
   * function level ("fn" cases, batched): the REAL `nemoguardrails.server.api._get_rails([id])` (with
     `RailsConfig.from_path` / `LLMRails` replaced by recording stubs), `os.path.join/normpath/abspath/commonprefix`
     and `re.search(<regex source>)` against the Lean `Server` model on generated roots / ids / paths.
-  * end to end ("e2e" cases): request sequences through FastAPI `TestClient` on the real
-    `nemoguardrails.server.api.app` with a real `MemoryStore` registered; responses, paths given to `from_path`,
-    messages given to `generate_async`, cache keys and the final datastore are compared with the model's `run`.
+  * end to end ("e2e" cases): HISTORIES through FastAPI `TestClient` on freshly executed copies of the real module
+    `nemoguardrails/server/api.py` (one per server process / restart) that share one datastore (a real `MemoryStore` or a
+    `DataStore` subclass): requests, external changes of stored keys (set / append / delete / truncate / redact), datastore
+    swaps, process switches, restarts, rails-cache evictions, pre-seeded stores; responses, paths given to `from_path`,
+    messages given to `generate_async`, the rails cache of every process and the final datastore are compared with the
+    model's `runOps` (Models/ServerOps.lean).
+  * static: statement order in `_get_rails`; module-level state reachable from `chat_completion` / `register_datastore` must be
+    within what the model has; shape of the three thread statements.
 Oracle (written from the property statement, independent of the model): every path handed to `from_path`
 is the configured root or lies below it (`os.path.abspath` + component prefix); a request naming an id whose
-joined path leaves the root gets the fixed reply; per thread id, the messages handed to the LLM are
-history ++ new and the datastore finally holds exactly `"thread-"+id -> concatenation of (new ++ [reply])`.
+joined path leaves the root gets the fixed reply; with a thread id, the messages handed to the LLM are what the datastore holds
+for the thread (read directly from the store object right before the request) ++ new, right after the request the store holds
+that list ++ [reply] (unchanged when no turn completed), no other key changed, and the store always equals the store of the
+statement (initial content + operations of other actors + completed turns), whichever process answered.
 """
 import json
 import logging
@@ -28,7 +35,9 @@ RULE = ("fn: batches of config ids built from path-ish fragments (separators, do
         "paths, root-relative escapes such as ../<root>2/x, empty, very long) over 12 roots (absolute, relative, trailing slash, "
         "'/', '//', un-normalised), evaluated by the real _get_rails + os.path + re; plus all ids of length<=3 (quick) / <=4 (thorough) "
         "over {., /, \\, a, %}. e2e: 3-12 requests over 5 thread ids (prefix-related, unicode, too short/long), config_id/config_ids/"
-        "default/single-config mode, context, streaming, failing from_path / generate. non-trivial = fn batch with both accepted and "
+        "default/single-config mode, context, streaming, failing from_path / generate, interleaved with operations of other actors on the shared "
+        "datastore (set/append/del/take/redact of a key, register_datastore swaps, pre-seeded stores incl. 120-1500-message threads), 1-3 server "
+        "processes (api.py executed afresh per process), restarts, rails-cache evictions; id lists that glue into a rejected id; escapes in 25 encodings. non-trivial = fn batch with both accepted and "
         "rejected ids, or e2e sequence with >=2 completed turns on one thread or a rejected id; distinct = distinct case JSON.")
 TRUSTED_BASE = [
     "translator harness/translate/c20.py (regex source parsed with re._parser; constants by AST path)",
@@ -38,8 +47,9 @@ TRUSTED_BASE = [
 ASSUMPTIONS = [
     "POSIX path semantics; the filesystem (symlinks, what from_path reads below the directory it is given) is not modelled",
     "streaming requests do not update the thread (TODO in chat_completion); the thread statement is about completed non-streaming turns",
+    "values written to the datastore by other actors are JSON lists of message objects; operations and requests are sequential",
     "messages are JSON values that survive json.dumps/json.loads unchanged; request `messages` is a list",
-    "the auto-reload watcher (only removes cache entries) and the redis/other DataStore back-ends are not modelled",
+    "the auto-reload watcher thread is represented by its effect (deleting a cache entry: the evict operation); the redis/other DataStore back-ends are not modelled",
 ]
 EXHAUSTIVE = {"quick": True, "thorough": True}
 
@@ -52,7 +62,7 @@ FALLBACK = {
     "rx_source": None, "key_sep": "-", "loop_order": [], "could_prefix": "Could not load the ",
     "could_suffix": " guardrails configuration. An internal error has occurred.", "internal_reply": "Internal server error.",
     "short_reply": "The `thread_id` must have a minimum length of 16 characters.", "thread_prefix": "thread-",
-    "handler_min": 16, "field_min": 16, "field_max": 255, "fallback": True,
+    "handler_min": 16, "field_min": 16, "field_max": 255, "fallback": True, "process_state": {},
 }
 
 
@@ -73,11 +83,30 @@ def translate():
     return out
 
 
+# module-level variables of api.py the request path may reach, and what they are in the model
+MODEL_STATE = {
+    "chat_completion": ["api_request_headers",   # context variable, written only
+                        "app",                   # Cfg (root, single-config mode, default id)
+                        "datastore",             # State.store
+                        "llm_rails_events_history_cache", "llm_rails_instances",   # State.cache (the events cache only travels with an instance)
+                        "log", "registered_loggers"],
+    "register_datastore": ["datastore"],
+}
+
+
 def static_tie():
     inf = info()
     probs = []
     if inf.get("fallback"):
         return probs  # already reported by translate()
+    ps = inf.get("process_state") or {}
+    for entry, want in MODEL_STATE.items():
+        extra = sorted(set(ps.get(entry, [])) - set(want))
+        if extra:
+            probs.append(f"{entry} can reach module-level state {extra} that the model does not have (model: rails cache + datastore only; "
+                         f"theorem chat_step_reads_store says a turn depends on nothing else)")
+    if inf.get("thread_shape") != tr.THREAD_SHAPE:
+        probs.append(f"chat_completion no longer reads the thread from the datastore once, prepends it and writes back messages + [reply]: {inf.get('thread_shape')}")
     if inf["loop_order"] != ["regex", "commonprefix", "from_path"]:
         probs.append(f"_get_rails loop no longer runs regex test, common-prefix test, from_path in this order: {inf['loop_order']}")
     return probs
@@ -92,8 +121,33 @@ FRAGS = ["", ".", "..", "...", "/", "\\", "//", "a", "b", "cfg", "configs2", "%2
 SMALL = [".", "/", "\\", "a", "%"]
 
 
+def _pct(s, which, lower=False):
+    return "".join(("%%%02x" if lower else "%%%02X") % ord(c) if (c in which and ord(c) < 128) else c for c in s)
+
+
+ENCODINGS = [
+    lambda s: _pct(s, "./\\"), lambda s: _pct(s, "./\\", True), lambda s: _pct(s, "."), lambda s: _pct(s, "/\\"),
+    lambda s: _pct(_pct(s, "./"), "%"),                                               # double encoding
+    lambda s: s.replace(".", "\uff0e").replace("/", "\uff0f"),                        # fullwidth (NFKC-equivalent to . and /)
+    lambda s: s.replace(".", "\uff0e"), lambda s: s.replace("/", "\uff0f"),
+    lambda s: s.replace("..", "\u2025"), lambda s: s.replace(".", "\u2024"),          # two dot leader / one dot leader (NFKC -> .. / .)
+    lambda s: s.replace(".", "\ufe52"), lambda s: s.replace("/", "\u2215"), lambda s: s.replace("/", "\u2044"),
+    lambda s: s.replace("/", "\\"), lambda s: s.replace("/", "%c0%af"), lambda s: s.replace(".", "%u002e"),
+    lambda s: s.upper(), lambda s: " " + s, lambda s: s + " ", lambda s: s + "\x00", lambda s: "./" + s, lambda s: s.replace("/", "//"),
+    lambda s: s.replace("../", "....//"), lambda s: s.replace("../", "..;/"), lambda s: s.replace("..", ".\u200b."),
+]
+
+
 def g_id(rng, root):
     r = rng.random()
+    if 0.7 <= r < 0.85 and rng.random() < 0.5:
+        # an escape attempt (into a sibling whose name starts with the root's name, or upwards), written in some encoding
+        base = os.path.basename(os.path.normpath(root)) or "x"
+        t = rng.choice(["../" + base + "2/x", "../" + base + "2", "../" + base + "_private", "..", "../..", "../" * rng.randrange(1, 5) + "etc", "a/../../" + base + "2",
+                        "../" + base, "..\\" + base + "2", "../" + base + "/../" + base + "-staging/x"])
+        for _ in range(rng.choice([1, 1, 1, 2])):
+            t = rng.choice(ENCODINGS)(t)
+        return t
     if r < 0.55:
         return "".join(rng.choice(FRAGS) for _ in range(rng.choice([0, 1, 1, 2, 2, 3, 3, 4, 5])))
     if r < 0.7:
@@ -136,10 +190,43 @@ def g_fn_case(rng, n):
     }
 
 
-TIDS_OK = ["t" * 16, "t" * 16 + "2", "thread-" + "t" * 16, "\u00e9" * 16, "A" * 255, "0123456789abcdef"]
+TIDS_OK = ["t" * 16, "t" * 16 + "2", "thread-" + "t" * 16, "\u00e9" * 16, "A" * 255, "0123456789abcdef",
+           # ids that a normalising / truncating key function would merge: case, trailing blank, last character of a long id,
+           # composed vs decomposed accent, a key separator inside the id
+           "T" * 16, "t" * 16 + " ", "A" * 254 + "B", "e\u0301" * 8, "0123456789abcde-f", "t" * 32, "t" * 64, "t" * 65]
 TIDS_BAD = ["", "abc", "\u00e9" * 15, "A" * 256, "t" * 15]
-E2E_IDS = ["a", "b", "a-b", "cfg", "missing", ".", "", "a.b", "c"]
-E2E_BAD = ["../configs2/x", "..", "a/b", "\\", "a..b", "/etc", "../x", "a/../b", "%2e%2e/x", "\uff0e\uff0e/x", "..\\x", "a/", "/", "x\x00/..", "../configs"]
+E2E_IDS = ["a", "b", "a-b", "cfg", "missing", ".", "", "a.b", "c", "a-", "-b", "-", "a--b", "A", "a "]
+E2E_BAD = ["../configs2/x", "..", "a/b", "\\", "a..b", "/etc", "../x", "a/../b", "%2e%2e/x", "\uff0e\uff0e/x", "..\\x", "a/", "/", "x\x00/..", "../configs",
+           "a/b/c", "a\\b", "...", "a-../x", "-/-"]
+CONTEXTS = [{"k": 1}, {"k": 1}, {"user": "bob"}, {"k": [1, 2], "n": None}]
+OTHER_KEYS = ["other", "thread", "thread-", "config-a", "THREAD-" + "t" * 16, "thread-" + "t" * 17]
+
+
+def _msg(rng, tag):
+    """a message; contents repeat now and then (a client may say the same thing twice)."""
+    r = rng.random()
+    role = rng.choice(["user", "user", "assistant", "system"])
+    if r < 0.75:
+        return {"role": role, "content": tag}
+    if r < 0.9:
+        return {"role": "user", "content": rng.choice(["hi", "hi", "yes", ""])}
+    return {"role": role, "content": tag, "extra": {"n": 1}}
+
+
+def _redact(m):
+    return dict(m, content="#" * len(m["content"])) if isinstance(m, dict) and isinstance(m.get("content"), str) else m
+
+
+def _collision(rng):
+    """an accepted id list whose pieces glue together (with ANY one-character separator) into a rejected id."""
+    for _ in range(20):
+        b = rng.choice(E2E_BAD + ["..", "a/b", "a\\b", "a..b", "./."])
+        seps = sorted(set(b))
+        c = rng.choice(seps)
+        parts = b.split(c)
+        if len(parts) >= 2 and len(parts) <= 4:
+            return parts, b
+    return ["a", "b"], "a/b"
 
 
 def g_e2e_case(rng, maxlen=12):
@@ -147,23 +234,125 @@ def g_e2e_case(rng, maxlen=12):
     cfg = {
         "root": root,
         "single": rng.choice(["configs", "a-b", "a..b", "a"]) if rng.random() < 0.15 else None,
-        "default": rng.choice(["a", "b", "../x", "missing", ""]) if rng.random() < 0.3 else None,
+        "default": rng.choice(["a", "b", "../x", "missing", "", "..", "a/b", "a-b"]) if rng.random() < 0.3 else None,
         "has_store": rng.random() < 0.92,
         "streaming": rng.random() < 0.2,
         "gr_mode": rng.random() < 0.3,
+        "store_kind": rng.choice(["memory", "memory", "custom"]),
     }
     tids = rng.sample(TIDS_OK, 3)
+    if rng.random() < 0.25:  # two ids that differ only slightly
+        tids = rng.choice([["t" * 16, "T" * 16, "t" * 16 + " "], ["A" * 255, "A" * 254 + "B", "t" * 64], ["t" * 32, "t" * 64, "t" * 65],
+                           ["\u00e9" * 16, "e\u0301" * 8, "t" * 16], ["t" * 16, "thread-" + "t" * 16, "t" * 16 + "2"]])
+    keys = ["thread-" + t for t in tids]
+    n_procs = rng.choice([1, 1, 2, 2, 3])
+    ext = cfg["has_store"] and rng.random() < 0.8       # somebody else uses the datastore as well
+    long = cfg["has_store"] and rng.random() < 0.08     # a long conversation that exists already, used and changed by others
+    ext = ext or long
+    focus = long or (cfg["has_store"] and rng.random() < 0.4)   # a case about threads: loadable configs, valid thread ids
+    n_ctr = [0]
+
+    def fresh(n):
+        out = []
+        for _ in range(n):
+            n_ctr[0] += 1
+            out.append(_msg(rng, "x%d" % n_ctr[0]))
+        return out
+
+    def g_store(p):
+        st = []
+        for k in keys:
+            if rng.random() < p:
+                st.append([k, fresh(rng.choice([0, 1, 2, 3, 5]))])
+        if rng.random() < 0.4:
+            st.append([rng.choice(OTHER_KEYS), fresh(rng.choice([0, 1, 2]))])
+        rng.shuffle(st)
+        return st
+
+    if cfg["has_store"] and (long or rng.random() < 0.5):   # threads that exist before this server is started
+        cfg["store0"] = g_store(0.6)
+        if long:
+            cfg["store0"] = [kv for kv in cfg["store0"] if kv[0] != keys[0]]
+            cfg["store0"].append([keys[0],
+                                  [{"role": "user", "content": "h%d" % i} for i in range(rng.choice([120, 600, 1500]))]])
+    approx = {}                                         # what the generator believes a thread holds (used for re-sent histories only)
+    for k, v in cfg.get("store0") or []:
+        approx.setdefault(k, list(v))
+
+    def g_op():
+        kinds = ["proc"] * (6 if n_procs > 1 else 0) + ["restart", "evict"]
+        if ext:
+            kinds += ["set"] * 4 + ["del"] * 3 + ["append"] * 4 + ["take"] * 2 + ["swap"] + ["redact"] * 2
+        kind = rng.choice(kinds)
+        if kind == "proc":
+            return {"op": "proc", "i": rng.randrange(n_procs)}
+        if kind == "restart":
+            return {"op": "restart"}
+        if kind == "evict":
+            return {"op": "evict", "key": rng.choice(E2E_IDS + ["a-b", "a", "b"])}
+        if kind == "swap":
+            st = g_store(0.5)
+            approx.clear()
+            for k, v in st:
+                approx.setdefault(k, list(v))
+            return {"op": "swap", "store": st}
+        key = keys[0] if long and rng.random() < 0.6 else rng.choice(keys * 4 + OTHER_KEYS[:3])
+        if kind == "set" and long and rng.random() < 0.7:
+            kind = "append"
+        if kind == "set":
+            v = fresh(rng.choice([0, 0, 1, 2, 4]))
+            approx[key] = list(v)
+            return {"op": "set", "key": key, "msgs": v}
+        if kind == "del":
+            approx.pop(key, None)
+            return {"op": "del", "key": key}
+        if kind == "append":
+            v = fresh(rng.choice([1, 2, 2]))
+            approx[key] = approx.get(key, []) + v
+            return {"op": "append", "key": key, "msgs": v}
+        if kind == "redact":   # an operator blanks the texts of a thread: same shape and size, other contents
+            if key in approx:
+                approx[key] = [_redact(m) for m in approx[key]]
+            return {"op": "redact", "key": key}
+        n = rng.choice([0, 0, 1, 2, 3])
+        if key in approx:
+            approx[key] = approx[key][:n]
+        return {"op": "take", "key": key, "n": n}
+
+    coll = _collision(rng) if rng.random() < 0.2 else None
     reqs = []
-    for t in range(1, rng.randrange(3, maxlen + 1) + 1):
+    n_req = rng.randrange(3, maxlen + 1)
+    t = 0
+    while t < n_req:
+        if reqs and rng.random() < (0.35 if (ext or n_procs > 1) else 0.1):
+            reqs.append(g_op())
+            continue
+        t += 1
         body = {}
         r = rng.random()
 
         def one():
+            if focus:
+                return cfg["single"] or rng.choice(["a", "b", "cfg"])
             if cfg["single"] and rng.random() < 0.6:
                 return cfg["single"]
+            if cfg["default"] and rng.random() < 0.3:
+                return cfg["default"]
+            if rng.random() < 0.1:      # anything the function-level generator writes (encoded escapes, look-alikes, …)
+                for _ in range(5):
+                    x = g_id(rng, root)
+                    if len(x) < 300:
+                        return x
             return rng.choice(E2E_BAD) if rng.random() < 0.15 else rng.choice(E2E_IDS)
 
-        if r < 0.45:
+        if coll and rng.random() < 0.5 and not focus:
+            body["config_ids"] = list(coll[0]) if rng.random() < 0.55 else [coll[1]]
+        elif focus:
+            if rng.random() < 0.7 or cfg["single"]:
+                body["config_id"] = one()
+            else:
+                body["config_ids"] = [one() for _ in range(rng.choice([1, 2]))]
+        elif r < 0.45:
             body["config_id"] = one()
         elif r < 0.8:
             if cfg["single"] and rng.random() < 0.5:
@@ -178,21 +367,45 @@ def g_e2e_case(rng, maxlen=12):
             body["config_ids"] = None
         # else: neither
         r = rng.random()
-        if r < 0.7:
-            body["thread_id"] = rng.choice(tids)
+        if r < 0.7 or (focus and r < 0.95):
+            body["thread_id"] = rng.choice(tids if not focus else tids[:2] + tids[:1] * (4 if long else 1))
         elif r < 0.8:
             body["thread_id"] = rng.choice(TIDS_BAD)
         elif r < 0.85:
             body["thread_id"] = None
-        body["messages"] = [{"role": rng.choice(["user", "user", "assistant", "system"]), "content": f"m{t}.{j}"} for j in range(rng.choice([0, 1, 1, 1, 2, 3]))]
+        body["messages"] = [dict(_msg(rng, f"m{t}.{j}")) for j in range(rng.choice([0, 1, 1, 1, 2, 3]))]
+        key = "thread-" + body["thread_id"] if body.get("thread_id") else None
+        if key and approx.get(key) and rng.random() < 0.15:
+            # a client that re-sends (part of) what the thread already holds before its new message
+            h = approx[key]
+            body["messages"] = [dict(m) for m in (h if rng.random() < 0.6 else h[-rng.randrange(1, len(h) + 1):])][:40] + body["messages"][:1]
         r = rng.random()
         if r < 0.1:
             body["context"] = {}
-        elif r < 0.3:
-            body["context"] = {"k": t}
+        elif r < 0.35:
+            body["context"] = dict(rng.choice(CONTEXTS + [{"k": t}]))
         if rng.random() < 0.12:
             body["stream"] = True
-        reply = None if rng.random() < 0.08 else {"role": "assistant", "content": f"reply#{t}"}
+        if rng.random() < 0.1:
+            body["state"] = rng.choice([{}, {"events": [], "state": {}}])
+        if rng.random() < 0.1:
+            body["options"] = rng.choice([{}, {"rails": ["input"]}, {"log": {"activated_rails": True}}])
+        r = rng.random()
+        if r < 0.08:
+            reply = None
+        elif r < 0.2:
+            reply = rng.choice([{"role": "assistant", "content": ""}, {"role": "assistant", "content": "hi"}, {"role": "assistant", "content": "ok", "extra": [1]}])
+        else:
+            reply = {"role": "assistant", "content": f"reply#{t}"}
+        if focus and rng.random() < 0.15 and reqs and "op" not in reqs[-1] and reqs[-1]["body"].get("thread_id") in tids:
+            # the same request on another thread, answered the same way: two threads with identical contents
+            prev = reqs[-1]
+            body = json.loads(json.dumps(prev["body"]))
+            body["thread_id"] = rng.choice([x for x in tids if x != prev["body"]["thread_id"]])
+            reply = prev["reply"]
+            key = "thread-" + body["thread_id"]
+        if key and reply is not None and not body.get("stream"):
+            approx[key] = approx.get(key, []) + ([{"role": "context", "content": body["context"]}] if body.get("context") else []) + body["messages"] + [reply]
         reqs.append({"body": body, "reply": reply})
     return {"kind": "e2e", "cfg": cfg, "missing": ["missing"] if rng.random() < 0.8 else ["missing", "b"], "reqs": reqs}
 
@@ -233,11 +446,19 @@ def shrink(case):
         reqs = case["reqs"]
         for i in range(len(reqs)):
             yield dict(case, reqs=reqs[:i] + reqs[i + 1:])
+        cfg = case["cfg"]
+        if cfg.get("store0"):
+            yield dict(case, cfg={k: v for k, v in cfg.items() if k != "store0"})
+            if len(cfg["store0"]) > 1:
+                for i in range(len(cfg["store0"])):
+                    yield dict(case, cfg=dict(cfg, store0=cfg["store0"][:i] + cfg["store0"][i + 1:]))
         for i, r in enumerate(reqs):
+            if "op" in r:
+                continue
             b = r["body"]
             if len(b.get("messages") or []) > 1:
                 yield dict(case, reqs=reqs[:i] + [dict(r, body=dict(b, messages=b["messages"][:1]))] + reqs[i + 1:])
-            for k in ("context", "stream"):
+            for k in ("context", "stream", "state", "options"):
                 if k in b:
                     yield dict(case, reqs=reqs[:i] + [dict(r, body={kk: v for kk, v in b.items() if kk != k})] + reqs[i + 1:])
 
@@ -375,46 +596,167 @@ def classify(resp, turn, script):
     return {"r": "ok", "reply": msgs[0], "n": len(msgs)}
 
 
+def _load_process(i):
+    """a server process of its own: the module `nemoguardrails/server/api.py` executed afresh (own `app`, own globals)."""
+    import importlib.util
+    import sys
+
+    name = "nemoguardrails.server.api_proc%d" % i
+    spec = importlib.util.spec_from_file_location(name, _API.__file__)
+    m = importlib.util.module_from_spec(spec)
+    sys.modules[name] = m
+    spec.loader.exec_module(m)
+    m.RailsConfig = _StubRailsConfig
+    m.LLMRails = _StubRails
+    return m
+
+
+class _Store:
+    """the datastore of a case, read and written directly (not through the server)."""
+
+    def __init__(self, kind, items):
+        from nemoguardrails.server.datastore.datastore import DataStore
+        from nemoguardrails.server.datastore.memory_store import MemoryStore
+
+        if kind == "custom":
+            class DictStore(DataStore):
+                def __init__(self):
+                    self.rows = {}
+
+                async def set(self, key, value):
+                    self.rows[key] = value
+
+                async def get(self, key):
+                    return self.rows.get(key)
+
+            self.ds = DictStore()
+            self.d = self.ds.rows
+        else:
+            self.ds = MemoryStore()
+            self.d = self.ds.data
+        for k, v in items:
+            self.d.setdefault(k, json.dumps(v))
+
+    def snapshot(self):
+        out = {}
+        for k, v in self.d.items():
+            try:
+                out[k] = json.loads(v)
+            except Exception:  # noqa
+                out[k] = {"_raw": str(v)[:200]}
+        return out
+
+    def set(self, k, msgs):
+        import asyncio
+
+        asyncio.run(self.ds.set(k, json.dumps(msgs)))   # what any other user of the store does
+
+    def get(self, k):
+        v = self.d.get(k)
+        return None if v is None else json.loads(v)
+
+    def delete(self, k):
+        self.d.pop(k, None)
+
+
 def run_e2e(case):
-    api = _API
+    from fastapi.testclient import TestClient
+
     cfg = case["cfg"]
     _reset(cfg["root"], cfg.get("single"), cfg.get("default"))
-    from nemoguardrails.server.datastore.memory_store import MemoryStore
+    store = [_Store(cfg.get("store_kind"), cfg.get("store0") or []) if cfg.get("has_store") else None]
+    procs = {}
 
-    store = MemoryStore() if cfg.get("has_store") else None
-    api.register_datastore(store)
+    def start(i):
+        m = _load_process(i)
+        m.app.rails_config_path = cfg["root"]
+        m.app.single_config_mode = cfg.get("single") is not None
+        m.app.single_config_id = cfg.get("single")
+        m.app.default_config_id = cfg.get("default")
+        m.register_datastore(store[0].ds if store[0] is not None else None)
+        procs[i] = (m, TestClient(m.app, raise_server_exceptions=False))
+
+    cur = 0
+    start(0)
     _REC["missing"] = set(case.get("missing") or [])
     _REC["streaming"] = bool(cfg.get("streaming"))
     _REC["gr_mode"] = bool(cfg.get("gr_mode"))
-    _REC["script"] = {i + 1: r["reply"] for i, r in enumerate(case["reqs"])}
+    n = 0
+    script = {}
+    for r in case["reqs"]:
+        if "op" not in r:
+            n += 1
+            script[n] = r["reply"]
+    _REC["script"] = script
     resps = []
-    for i, r in enumerate(case["reqs"]):
-        _REC["turn"] = i + 1
+    n = 0
+    for r in case["reqs"]:
+        if "op" in r:
+            op = r["op"]
+            c = {"r": "op"}
+            if op == "proc":
+                cur = r["i"]
+                if cur not in procs:
+                    start(cur)
+            elif op == "restart":
+                start(cur)
+            elif op == "evict":
+                procs[cur][0].llm_rails_instances.pop(r["key"], None)   # what the auto-reload watcher does
+            elif store[0] is None:
+                c["skipped"] = True
+            elif op == "swap":
+                store[0] = _Store(cfg.get("store_kind"), r["store"])
+                for m, _ in procs.values():
+                    m.register_datastore(store[0].ds)
+            elif op == "set":
+                store[0].set(r["key"], r["msgs"])
+            elif op == "append":
+                store[0].set(r["key"], (store[0].get(r["key"]) or []) + r["msgs"])
+            elif op == "del":
+                store[0].delete(r["key"])
+            elif op == "take":
+                v = store[0].get(r["key"])
+                if v is not None:
+                    store[0].set(r["key"], v[:r["n"]])
+            elif op == "redact":
+                v = store[0].get(r["key"])
+                if v is not None:
+                    store[0].set(r["key"], [_redact(m) for m in v])
+            else:
+                raise ValueError(op)
+            resps.append(c)
+            continue
+        n += 1
+        _REC["turn"] = n
         n_calls, n_used = len(_REC["calls"]), len(_REC["used"])
-        resp = _CLIENT.post("/v1/chat/completions", json=r["body"])
-        c = classify(resp, i + 1, _REC["script"])
+        before = store[0].snapshot() if store[0] is not None else None
+        resp = procs[cur][1].post("/v1/chat/completions", json=r["body"])
+        c = classify(resp, n, _REC["script"])
         c["calls"] = _REC["calls"][n_calls:]
         used = _REC["used"][n_used:]
         if used:
             c["used"] = used[-1]["messages"]
             c["served"] = used[-1]["served"]
             c["n_generate"] = len(used)
+        c["proc"] = cur
+        if store[0] is not None:
+            after = store[0].snapshot()
+            tk = "thread-" + r["body"]["thread_id"] if isinstance(r["body"].get("thread_id"), str) else None
+            # the stored thread of this request as read from the store right before and right after it; every other key only if it changed
+            c["stored_before"] = before.get(tk) if tk else None
+            c["stored_after"] = after.get(tk) if tk else None
+            c["others_changed"] = sorted(k for k in set(before) | set(after) if k != tk and before.get(k, "absent") != after.get(k, "absent"))
         resps.append(c)
-    data = {}
-    raw_ok = True
-    if store is not None:
-        for k, v in store.data.items():
-            try:
-                data[k] = json.loads(v)
-            except Exception:  # noqa
-                raw_ok = False
-                data[k] = {"_raw": str(v)[:200]}
+    data = store[0].snapshot() if store[0] is not None else {}
     obs = {
         "cwd": os.getcwd(), "base": os.path.abspath(cfg["root"]),
-        "resps": resps, "store": [[k, data[k]] for k in data], "store_json_ok": raw_ok,
-        "loads": list(_REC["calls"]), "cache": [[k, list(v.config.paths)] for k, v in api.llm_rails_instances.items()],
+        "resps": resps, "store": [[k, data[k]] for k in data], "store_json_ok": not any(isinstance(v, dict) and "_raw" in v for v in data.values()),
+        "loads": list(_REC["calls"]),
+        "caches": [[i, [[k, list(v.config.paths)] for k, v in procs[i][0].llm_rails_instances.items()]] for i in sorted(procs)],
     }
-    api.register_datastore(None)
+    obs["cache"] = [kv for _, c in obs["caches"] for kv in c]
+    for m, _ in procs.values():
+        m.register_datastore(None)
     return obs
 
 
@@ -453,14 +795,32 @@ def model_requests(case, obs):
         return [{"m": "C20.fn", "root": case["root"], "cwd": obs["cwd"], "items": items}]
     cfg = case["cfg"]
     miss = set(case.get("missing") or [])
+    store_ops = ("set", "append", "del", "take", "swap", "redact")
+    items = []
+    for r in case["reqs"]:
+        if "op" not in r:
+            items.append(model_req(r["body"]))
+        elif r["op"] in store_ops and not cfg.get("has_store"):
+            items.append({"op": "proc", "i": -1})   # placeholder, replaced below (no datastore: nothing to operate on)
+        else:
+            items.append(r)
+    # without a datastore the store operations do nothing: keep the positions aligned with a no-op
+    cur = 0
+    for i, it in enumerate(items):
+        if it.get("op") == "proc":
+            if it["i"] == -1:
+                items[i] = {"op": "proc", "i": cur}
+            else:
+                cur = it["i"]
     return [{
         "m": "C20.run",
         "cfg": {"root": cfg["root"], "cwd": obs["cwd"], "single": cfg.get("single"), "default": cfg.get("default"),
-                "has_store": bool(cfg.get("has_store")), "streaming": bool(cfg.get("streaming"))},
+                "has_store": bool(cfg.get("has_store")), "streaming": bool(cfg.get("streaming")),
+                "store0": (cfg.get("store0") or []) if cfg.get("has_store") else []},
         # from_path fails on directories whose name is scripted as missing (decided on the name, as the stub does)
         "missing": sorted({p for p in obs["loads"] if os.path.basename(p) in miss} | {os.path.join(obs["base"], m) for m in miss}),
-        "script": [r["reply"] for r in case["reqs"]],
-        "reqs": [model_req(r["body"]) for r in case["reqs"]],
+        "script": [r["reply"] for r in case["reqs"] if "op" not in r],
+        "reqs": items,
     }]
 
 
@@ -507,6 +867,10 @@ def compare(case, obs, mouts):
     if len(m["resps"]) != len(obs["resps"]):
         return "model answered a different number of requests"
     for i, (a, b) in enumerate(zip(obs["resps"], m["resps"])):
+        if a["r"] == "op" or b["r"] == "op":
+            if a["r"] != b["r"]:
+                return f"item {i + 1}: server side {a['r']}, model {b['r']}"
+            continue
         body = case["reqs"][i]["body"]
         if a["r"] != b["r"]:
             return f"request {i + 1} {json.dumps(body, ensure_ascii=True)[:200]}: server {a}, model {b['r']}"
@@ -527,8 +891,8 @@ def compare(case, obs, mouts):
         return f"paths given to from_path {obs['loads']}, model {m['loads']}"
     if sorted(obs["store"]) != sorted(m["store"]):
         return f"datastore {obs['store']}, model {m['store']}"
-    if obs["cache"] != m["cache"]:
-        return f"llm_rails_instances {obs['cache']}, model {m['cache']}"
+    if obs["caches"] != m["caches"]:
+        return f"llm_rails_instances per process {obs['caches']}, model {m['caches']}"
     return None
 
 
@@ -576,8 +940,33 @@ def oracle(case, obs):
         for p in paths:
             if not inside(root_abs, p):
                 return f"load-outside-root: cached instance {key!r} combines {p!r}, root {root_abs!r}"
-    hist = {}
+    # `exp` is the datastore as the property statement says it evolves: operations of other actors act on it directly, a completed
+    # turn of thread t replaces exp[key(t)] by <stored thread> + <new messages> + [reply]; nothing else touches it.  Which server
+    # process answers, and what it answered before, plays no role.
+    has_store = bool(cfg.get("has_store"))
+    exp = {}
+    for k, v in (cfg.get("store0") or []) if has_store else []:
+        exp.setdefault(k, v)
     for i, (r, a) in enumerate(zip(case["reqs"], obs["resps"])):
+        if "op" in r:
+            op = r["op"]
+            if not has_store or op in ("proc", "restart", "evict"):
+                continue
+            if op == "swap":
+                exp = {}
+                for k, v in r["store"]:
+                    exp.setdefault(k, v)
+            elif op == "set":
+                exp[r["key"]] = r["msgs"]
+            elif op == "append":
+                exp[r["key"]] = exp.get(r["key"], []) + r["msgs"]
+            elif op == "del":
+                exp.pop(r["key"], None)
+            elif op == "take" and r["key"] in exp:
+                exp[r["key"]] = exp[r["key"]][:r["n"]]
+            elif op == "redact" and r["key"] in exp:
+                exp[r["key"]] = [dict(m, content="#" * len(m["content"])) if isinstance(m.get("content"), str) else m for m in exp[r["key"]]]
+            continue
         body = r["body"]
         if a["r"] == "other":
             return f"unexpected-response: request {i + 1}: {a}"
@@ -588,20 +977,31 @@ def oracle(case, obs):
             return f"escape-not-rejected: request {i + 1} names {ids} (leaves root {root_abs!r}) but the reply is {a['r']}"
         new = ([{"role": "context", "content": body["context"]}] if body.get("context") else []) + list(body.get("messages") or [])
         tid = body.get("thread_id")
+        key = "thread-" + tid if tid else None
+        if has_store:
+            # the store as read directly around the request must be the store of the statement
+            if a.get("others_changed"):
+                return f"store-mismatch: request {i + 1} (thread {tid!r}) changed other datastore keys: {a['others_changed']}"
+            if key and a.get("stored_before") != exp.get(key):
+                return f"store-mismatch: before request {i + 1} the datastore holds {a.get('stored_before')} for {key!r}, the history says {exp.get(key)}"
         if a["r"] in ("ok", "streaming"):
-            before = hist.get(tid, []) if tid else []
+            before = (a.get("stored_before") or []) if key else []
             if a.get("n_generate") != 1:
                 return f"thread-history-mismatch: request {i + 1}: generate_async called {a.get('n_generate')} times"
             if a.get("used") != before + new:
-                return f"thread-history-mismatch: request {i + 1} (thread {tid!r}): LLM got {a.get('used')}, expected stored {before} followed by new {new}"
+                return (f"thread-history-mismatch: request {i + 1} (thread {tid!r}, process {a.get('proc')}): LLM got {a.get('used')}, expected the stored thread "
+                        f"{before} followed by the new messages {new}")
             if a["r"] == "ok":
                 if a["reply"] != r["reply"] or a["n"] != 1:
                     return f"thread-history-mismatch: request {i + 1}: reply {a['reply']} is not the generated {r['reply']}"
-                if tid:
-                    hist[tid] = before + new + [a["reply"]]
-    want = sorted([["thread-" + t, h] for t, h in hist.items()])
+                if key:
+                    exp[key] = before + new + [a["reply"]]
+        if has_store and key and a.get("stored_after") != exp.get(key):
+            return (f"store-mismatch: after request {i + 1} ({a['r']}, thread {tid!r}) the datastore holds {a.get('stored_after')}, "
+                    f"the statement says {exp.get(key)}")
+    want = sorted([k, v] for k, v in exp.items())
     if not obs["store_json_ok"] or sorted(obs["store"]) != want:
-        return f"store-mismatch: datastore holds {obs['store']}, the request history says {want}"
+        return f"store-mismatch: datastore finally holds {obs['store']}, the history says {want}"
     return None
 
 
@@ -620,7 +1020,7 @@ def nontrivial(case, obs):
         return 0 < oks < len(obs["ids"])
     per = {}
     for r, a in zip(case["reqs"], obs["resps"]):
-        if a["r"] == "ok" and r["body"].get("thread_id"):
+        if "op" not in r and a["r"] == "ok" and r["body"].get("thread_id"):
             per[r["body"]["thread_id"]] = per.get(r["body"]["thread_id"], 0) + 1
     return any(v >= 2 for v in per.values()) or any(a["r"] == "couldNotLoad" for a in obs["resps"])
 
@@ -647,7 +1047,35 @@ def tags(case, obs):
         return t
     kinds = set(a["r"] for a in obs["resps"])
     t += ["resp:" + k for k in sorted(kinds)]
-    t.append("e2e-len:%d" % len(case["reqs"]))
+    t.append("e2e-len:%d" % sum(1 for r in case["reqs"] if "op" not in r))
+    for r in case["reqs"]:
+        if "op" in r:
+            t.append("e2e-op:" + r["op"])
+    t = sorted(set(t))
+    if len(obs["caches"]) > 1:
+        t.append("e2e-processes:%d" % len(obs["caches"]))
+    if case["cfg"].get("store0"):
+        t.append("e2e-preseeded-store")
+    # a completed turn on a thread this process served before and that somebody else changed in between
+    last = {}
+    for r, a in zip(case["reqs"], obs["resps"]):
+        if "op" in r:
+            if r["op"] in ("set", "append", "del", "take", "redact") and not a.get("skipped"):
+                for k in list(last):
+                    if k[1] == r["key"]:
+                        last[k] = "changed"
+            elif r["op"] == "swap":
+                last = {k: "swapped" for k in last}
+            continue
+        if a["r"] == "ok" and r["body"].get("thread_id"):
+            k = (a.get("proc"), "thread-" + r["body"]["thread_id"])
+            if last.get(k) == "changed":
+                t.append("e2e-turn-after-external-change")
+            if last.get(k) == "swapped":
+                t.append("e2e-turn-after-store-swap")
+            last[k] = "served"
+    if any(a["r"] in ("ok", "streaming") and a.get("stored_before") for a in obs["resps"]):
+        t.append("e2e-turn-on-nonempty-thread")
     t.append("e2e-threads:%d" % len(obs["store"]))
     if case["cfg"].get("single"):
         t.append("e2e-single-mode")
